@@ -69,7 +69,8 @@ def ob_hist(form1: int, form2: int, form3: int, pair: int, swap: bool, vb_spelle
     H.enter()
     progs = PROGRAMS[H.P("programs")]
     full = H.P("full_universe", False)
-    npairs = len(U) * len(U) if full else H.P("npairs", len(PAIRS))
+    NU = 11                 # the full-universe obligations range over the 11 scalar / sequence values (the set pair is in PAIRS)
+    npairs = NU * NU if full else H.P("npairs", len(PAIRS))
     H.assume(pair < npairs)
     nf = len(memcalls.forms_for(progs[0]))
     H.assume(form1 < nf and form2 < nf and form3 < nf)
@@ -77,7 +78,7 @@ def ob_hist(form1: int, form2: int, form3: int, pair: int, swap: bool, vb_spelle
     if H.P("fix_form2", True):
         H.assume(form2 == form1)
     pi = H.select(pair, 0, npairs - 1)
-    i1, i2 = (pi // len(U), pi % len(U)) if full else PAIRS[pi]
+    i1, i2 = (pi // NU, pi % NU) if full else PAIRS[pi]
     if swap:
         i1, i2 = i2, i1
     sp, sh = bool(vb_spelled), bool(shelve)
@@ -203,5 +204,5 @@ def obligations(tier, seed):
                                        "npairs": 9 if tier == "quick" else len(PAIRS)},
                             "timeout": 600 if tier == "quick" else 3000,
                             "bounds": "3-call histories: forms 6x6, %s value pairs x swap, default vs spelled b, direct vs "
-                                      "shelved" % ("all 169" if full else "%d near-colliding" % (9 if tier == "quick" else len(PAIRS)))})
+                                      "shelved" % ("all 121 (11 values)" if full else "%d near-colliding" % (9 if tier == "quick" else len(PAIRS)))})
     return obs
